@@ -17,12 +17,13 @@ FRESH = f'spec_fresh({OTOP})'
 def register(reg):
     register2(reg)
     register3(reg)
+    register4(reg)
     # ---------------------------------------------------------------- memo table access (C04)
     contract(reg, f'{K}:ParserCore.memo', ['C04', 'C03'], {'self': 'Ctx', 'key': 'MemoKeyR'}, ret='Outcome', modifies=[], wf=False,
              ensures=[('property', 'result == (self._memos.mvals[key] if self._memos.mkeys[key] else o_none())')])
     contract(reg, f'{K}:ParserCore.memoize', ['C04', 'C03', 'C06'], {'self': 'Ctx', 'key': 'MemoKeyR', 'memo': 'Outcome'}, ret='Outcome',
-             modifies=['self._memos'], wf=False, requires=['memo_ok(self._memos)', 'implies(is_err(memo), is_failure(memo, "ParseException"))'],
-             ensures=[('property', 'result == memo'), 'memo_ok(self._memos)',
+             modifies=['self._memos'], wf=False, requires=['memo_ok(self._memos, self.textlen)', 'outcome_ok(memo, self.textlen)'],
+             ensures=[('property', 'result == memo'), 'memo_ok(self._memos, self.textlen)',
                       ('property', 'implies(key.ruleinfo.is_memo and not key.ruleinfo.no_memo and self._active_config.memoization, '
                                    'self._memos.mkeys == store(old_self._memos.mkeys, key, True) and self._memos.mvals == store(old_self._memos.mvals, key, memo))'),
                       ('property', 'implies(not (key.ruleinfo.is_memo and not key.ruleinfo.no_memo and self._active_config.memoization), '
@@ -77,8 +78,8 @@ def register2(reg):
 def register3(reg):
     MEMO_OLD = '(old_self._memos.mvals[key] if old_self._memos.mkeys[key] else o_none())'
     contract(reg, f'{E}:ParserEngine.set_left_recursion_guard', ['C03', 'C04'], {'self': 'Ctx', 'key': 'MemoKeyR'}, ret='None',
-             modifies=['self._memos'], requires=REQ + ['memo_ok(self._memos)'],
-             ensures=['memo_ok(self._memos)', ('property', 'implies(not self._active_config.left_recursion, self._memos.mkeys == old_self._memos.mkeys and self._memos.mvals == old_self._memos.mvals)'),
+             modifies=['self._memos'], requires=REQ + ['memo_ok(self._memos, self.textlen)'],
+             ensures=['memo_ok(self._memos, self.textlen)', ('property', 'implies(not self._active_config.left_recursion, self._memos.mkeys == old_self._memos.mkeys and self._memos.mvals == old_self._memos.mvals)'),
                       ('property', 'implies(self._active_config.left_recursion and key.ruleinfo.is_memo and not key.ruleinfo.no_memo and self._active_config.memoization, '
                                    'self._memos.mkeys[key] and is_failure(self._memos.mvals[key], "FailedLeftRecursion"))')])
     # rule_call: the caller's frames are untouched on every TatSu exit; a remembered outcome is replayed
@@ -86,9 +87,52 @@ def register3(reg):
     contract(reg, f'{E}:ParserEngine.rule_call', ['C01', 'C03', 'C04', 'C06', 'C11'],
              {'self': 'Ctx', 'ri': 'RuleInfoR', 'key': 'MemoKeyR'}, ret='RuleResultR',
              modifies=['self.states.state_stack', 'self._memos'],
-             requires=REQ + ['key.ruleinfo == ri', 'memo_ok(self._memos)'],
-             ensures=[('property', SAME), 'memo_ok(self._memos)',
+             requires=REQ + ['key.ruleinfo == ri', 'memo_ok(self._memos, self.textlen)'],
+             ensures=[('property', SAME), 'memo_ok(self._memos, self.textlen)', '0 <= result.newpos', 'result.newpos <= self.textlen',
                       ('property', f'implies(is_ok({MEMO_OLD}), result == ok_res({MEMO_OLD}) and self._memos.mkeys == old_self._memos.mkeys and self._memos.mvals == old_self._memos.mvals)'),
                       ('property', f'not is_err({MEMO_OLD})')],
-             raises={'ParseException': [('property', SAME), 'memo_ok(self._memos)']},
+             raises={'ParseException': [('property', SAME), 'memo_ok(self._memos, self.textlen)']},
              propagates=[GROW])
+
+
+def register4(reg):
+    LEN = 'self.textlen'
+    MOK = f'memo_ok(self._memos, {LEN})'
+    ROK = f'memo_ok(self._results, {LEN})'
+    contract(reg, f'{K}:ParserCore.heartbeat', ['C01', 'C03', 'C04'], {'self': 'Ctx'}, ret='bool', verify=False, modifies=[], wf=False,
+             note='progress callback; assumed not to touch the parse state (may raise HeartDied, a TatSu error)')
+    contract(reg, f'{K}:ParserCore.set_furthest_exception', ['C01', 'C08'], {'self': 'Ctx', 'e': 'any'}, ret='None', verify=False, modifies=[], wf=False,
+             note='keeps the failure with the largest position for error reporting; not part of the parse state')
+    contract(reg, f'{E}:ParserEngine.clear_recursion_errors', ['C03', 'C04'], {'self': 'Ctx'}, ret='None', modifies=['self._memos'], wf=False,
+             ensures=['submap(self._memos, old_self._memos)'])
+    contract(reg, f'{E}:ParserEngine.save_result', ['C03'], {'self': 'Ctx', 'key': 'MemoKeyR', 'result': 'RuleResultR'}, ret='None',
+             modifies=['self._results'], wf=False,
+             ensures=[('property', 'self._results.mkeys == store(old_self._results.mkeys, key, True)'),
+                      ('property', 'self._results.mvals == store(old_self._results.mvals, key, o_ok(RuleResultR(node=spec_cstfinal(result.node), newpos=result.newpos)))')])
+    # C03: the seed-growing loop terminates for every input (measure), returns the last seed that advanced,
+    # restores the position each round and leaves the caller's frames untouched
+    contract(reg, f'{E}:ParserEngine.recursive_call', ['C03', 'C04'], {'self': 'Ctx', 'ri': 'RuleInfoR', 'key': 'MemoKeyR'}, ret='RuleResultR',
+             modifies=['self.states.state_stack', 'self._memos', 'self._results'],
+             requires=REQ + ['key.ruleinfo == ri', MOK, ROK],
+             invariants={0: [SAME, MOK, ROK, 'lastpos >= -1', f'lastpos <= {LEN}', f'initial == {OTOP}.cursor.pos',
+                             'implies(lastpos < 0, is_failure(result, "FailedLeftRecursion"))',
+                             'implies(lastpos >= 0, is_ok(result) and ok_res(result).newpos == lastpos)']},
+             decreases={0: f'{LEN} - lastpos'},
+             ensures=[('property', SAME), MOK, ROK, f'0 <= result.newpos', f'result.newpos <= {LEN}'],
+             raises={'ParseException': [('property', SAME), MOK, ROK]},
+             propagates=[GROW])
+    # C01/C04/C05/C09: one rule invocation as its caller sees it
+    WS = f'uf_ws_end({OTOP}.cursor)'
+    START = f'({OTOP}.cursor.pos if ri.is_tokn else {WS})'
+    contract(reg, f'{E}:ParserEngine.call', ['C01', 'C03', 'C04', 'C05', 'C06', 'C09'], {'self': 'Ctx', 'ri': 'RuleInfoR'}, ret='Val',
+             modifies=['self.states.state_stack', 'self.states.callstack', 'self._memos', 'self._results'],
+             requires=REQ + [MOK, ROK],
+             ensures=[f'top_only({S}, {OS})', f'spec_same_text({OTOP}, {TOP})',
+                      ('property', f'{TOP}.cst == spec_cstadd({OTOP}.cst, result)'),
+                      ('property', f'{TOP}.ast == {OTOP}.ast'),
+                      ('property', f'{TOP}.cutseen == {OTOP}.cutseen'),
+                      ('property', 'self.states.callstack == old_self.states.callstack'), MOK, ROK],
+             raises={'FailedParse': [('property', f'{S} == {OS}[:-1] + [spec_at({OTOP}, {START})]'),
+                                     'self.states.callstack == old_self.states.callstack', MOK, ROK],
+                     'ParseException': ['self.states.callstack == old_self.states.callstack']},
+             propagates=[GROW, 'self.states.callstack == old_self.states.callstack'])
